@@ -145,7 +145,21 @@ OutAz(h) == CASE h = 360 -> FALSE
 OutAlt(v) == CASE v = 180 -> FALSE
                [] v = 90 -> \/ \A c \in TC : c[3] > 0 /\ c[3] * c[3] > c[1] * c[1] + c[2] * c[2]
                             \/ \A c \in TC : c[3] < 0 /\ c[3] * c[3] > c[1] * c[1] + c[2] * c[2]
+\* elongated targets: the part of the box inside an angular window may lie wholly beyond visibleDistance
+\* although the nearest point of the box is in range (but outside the window).  Lower bounds of the distance
+\* of (box /\ window): inside a 90 degree horizontal window y > |x| >= min|x|, inside a 180 degree one y > 0;
+\* inside a 90 degree vertical window x^2 + y^2 >= z^2 >= (min|z|)^2.
+MinAbs(lo, hi) == IF lo > 0 THEN lo ELSE IF hi < 0 THEN -hi ELSE 0
+BoxMinAbs(ax) == MinAbs(TgtBox.lo[ax], TgtBox.hi[ax])
+OutClipAz(h) == h \in {90, 180} /\
+                LET ym == MaxI(TgtBox.lo[2], IF h = 90 THEN BoxMinAbs(1) ELSE 0) IN
+                ym * ym + BoxMinAbs(1) * BoxMinAbs(1) + BoxMinAbs(3) * BoxMinAbs(3) > DD * DD
+OutClipAlt(v) == v = 90 /\
+                 LET r2 == BoxMinAbs(1) * BoxMinAbs(1) + BoxMinAbs(2) * BoxMinAbs(2)
+                     z2 == BoxMinAbs(3) * BoxMinAbs(3) IN
+                 (IF r2 > z2 THEN r2 ELSE z2) + z2 > DD * DD
 WhollyOutside == Dist2PointBox(Zero3, TgtBox) > DD * DD \/ OutAz(VP.h) \/ OutAlt(VP.v)
+                 \/ OutClipAz(VP.h) \/ OutClipAlt(VP.v)
 InAz(h) == CASE h = 360 -> TRUE
              [] h = 180 -> \A c \in TC : c[2] > 0
              [] h = 90 -> \A c \in TC : c[2] > c[1] /\ c[2] > -c[1]
